@@ -769,6 +769,14 @@ def plan_third_party(seed, tier):
                                for j in range(rng.randint(0, 4))]
             emit = {"fide": peers.emit_fide, "fama": peers.emit_fama, "afm": peers.emit_afm,
                     "glencoe": peers.emit_glencoe}[kind]
+            if kind == "afm" and ref["ctcs"] and rng.random() < 0.2:
+                # some constraints are written inside a brackets block of a feature
+                owner = rng.choice(rm.names(ref))
+                for ctc in ref["ctcs"]:
+                    if rng.random() < 0.6:
+                        ctc["block"] = owner
+                        ctc["block_expr"] = ctc["e"]
+                        ctc["e"] = _prefix_names(ctc["e"], owner + ".")
             odd = kind == "fama" and rng.random() < 0.08
             text, info = emit(ref, rng, True) if odd else emit(ref, rng)
             if kind == "fama" and not odd and rng.random() < 0.08:
@@ -889,6 +897,14 @@ def _same_size_variant(b, rng, kind, fmt, frag, facets, ref, pool, cfg, path, ta
                  expect={"kind": "model", "ref": rm.project(fmt, new), "facets": facets})
             b.op(op="READ", fmt=fmt, path=path, pathstyle="abs")
             return
+
+
+def _prefix_names(expr, prefix):
+    if expr[0] == "f":
+        return ["f", prefix + expr[1]]
+    if expr[0] in rm.TERMS:
+        return list(expr)
+    return [expr[0]] + [_prefix_names(sub, prefix) for sub in expr[1:]]
 
 
 def _fama_cards(ref, rng):
